@@ -204,3 +204,7 @@ mod tests {
         assert!(tx.skip_packet_number.is_none());
     }
 }
+
+#[cfg(all(aws_s2n_quic_verif, any(test, all(kani, feature = "testing"))))]
+#[path = "/verif/harness/transport/tx_pn.rs"]
+mod verif;
